@@ -295,11 +295,13 @@ density_sketch<T, K, A> density_sketch<T, K, A>::deserialize(std::istream& is, c
   int64_t num_to_read = num_retained; // num_retrained is uint32_t so this allows error checking
   while (num_to_read > 0) {
     const auto level_size = read<uint32_t>(is);
+    if (!is.good()) throw std::runtime_error("error reading from std::istream");
     Level lvl(allocator);
     lvl.reserve(level_size);
     for (uint32_t i = 0; i < level_size; ++i) {
       Vector pt(dim, 0, allocator);
       read(is, pt.data(), pt_size);
+      if (!is.good()) throw std::runtime_error("error reading from std::istream");
       lvl.push_back(pt);
     }
     levels.push_back(lvl);
